@@ -98,14 +98,16 @@ class HHG(Harness):
         n, D = p.get("n", 2), p.get("D", 2)
         opts = cached_options(D, {})
         eng.rng = RngStub(eng)
-        invoked = []
+        invoked, strat_args = [], []
+        sentinel_cons = lambda X: np.zeros(len(X), dtype=bool)
 
         class StubES:
             def __init__(s, mu, lamb, o):
                 s.kind = None
 
-            def __call__(s, *a):
+            def __call__(s, u, lb, ub, func_logger, gp, optim_state, sum_rule=True, non_box_cons=None):
                 invoked.append(type(s).__name__)
+                strat_args.append((sum_rule, non_box_cons))
                 return np.zeros(D), 0.0
         WM = type("ESSearchWM", (StubES,), {})
         ELL = type("ESSearchELL", (StubES,), {})
@@ -117,7 +119,7 @@ class HHG(Harness):
             opts["hedge_gamma"] = eng.real("gamma")
             if not eng.concrete:
                 eng.assume(z3.And(opts["hedge_gamma"].e > 0, opts["hedge_gamma"].e * n <= 1))
-        h = HG(fcns, opts, None)
+        h = HG(fcns, opts, sentinel_cons)
         g = sym_array(eng, "g", (n,))
         if not eng.concrete:
             for v in _raw(g):
@@ -131,5 +133,6 @@ class HHG(Harness):
         out.ob("probabilities_sum_to_one", O.approx(O.vsum(list(prob)), 1, 1e-12))
         out.ob("each_probability_at_least_exploration_floor_at_most_one", O.And(*[O.And(O.ge(pv, gam), O.le(pv, 1)) for pv in prob]))
         ch = int(np.asarray(h.chosen_hedge).ravel()[0])
+        out.ob("strategy_receives_constraint_and_sum_rule", len(strat_args) == 1 and strat_args[0][1] is sentinel_cons and strat_args[0][0] == fcns[ch][1])
         out.ob("chosen_index_valid_and_strategy_invoked", 0 <= ch < n and len(invoked) == 1 and invoked[0] == {"ES-wcm": "ESSearchWM", "ES-ell": "ESSearchELL"}[fcns[ch][0]])
         return out
